@@ -111,7 +111,13 @@ where
         }
         // We want to minimize the potential energy, so the score we want to maximize is the
         // negation of the potential energy.
-        Some(-sum / self.total_shapes() as f64)
+        let score = -sum / self.total_shapes() as f64;
+        // Coincident particles give an infinite or undefined energy, which is not a valid score.
+        if score.is_finite() {
+            Some(score)
+        } else {
+            None
+        }
     }
 
     fn total_shapes(&self) -> usize {
